@@ -20,11 +20,13 @@ CONSTANTS Kinds,            \* subset of {"rm", "rcm"}
           AtomicAddCloser,  \* TRUE: model of a repaired AddCloser (closing checked under the lock);
                             \* FALSE: closer.go:111-117 as written (checked before taking the lock)
           Defect            \* "none" | "errsEarly" | "releaseLate" | "filterCtxErr" | "closersEarly" | "noWaitClose"
+                            \* | "addNoOuterCheck" (RunnerCloserManager.Add without its own running check)
 
 VARIABLES kind, nr, nc, grace,                  \* configuration
           now,
           running, closing, closeCh, stopped, closeFS, lockRun,  \* closer.go:54-59 (closed is subsumed by closeCh)
           pcan, ctx,                            \* parent context cancelled; inner manager's context cancelled
+          mrunning, rl, apr,                    \* inner manager: running flag, runners slice (ids); Add call: idle | passed | done
           rpc, hpc, icnt, ierrs,                \* runner goroutines, hidden closeCh runner, results collected (runner.go:87-94)
           opc, runid, nearly, nloop,            \* Run: idle | inner | lockwait | collect | done
           regs,                                 \* c.closers (ids of user closers, in order)
@@ -32,7 +34,7 @@ VARIABLES kind, nr, nc, grace,                  \* configuration
           retErr,
           apc, kpc, nrun,                       \* AddCloser calls, Close calls, Run calls
           c
-vars == <<kind, nr, nc, grace, now, running, closing, closeCh, stopped, closeFS, lockRun, pcan, ctx,
+vars == <<kind, nr, nc, grace, now, running, closing, closeCh, stopped, closeFS, lockRun, pcan, ctx, mrunning, rl, apr,
           rpc, hpc, icnt, ierrs, opc, runid, nearly, nloop, regs, cpc, cres, gpc, garm, ccnt, cerrs,
           retErr, apc, kpc, nrun, c>>
 
@@ -45,8 +47,9 @@ WId == <<"w1", "w2", "w3", "w4", "w5">>
 KId == <<"k1", "k2", "k3", "k4", "k5", "k6">>
 KCId == <<"kc1", "kc2", "kc3", "kc4", "kc5", "kc6">>
 
-Hidden == kind = "rcm" /\ nr > 0                 \* closer.go:156-164
-NInner == nr + (IF Hidden THEN 1 ELSE 0)
+Hidden == hpc # "none"                           \* closer.go:161-170: decided when the inner manager is started
+NInner == Len(rl) + (IF Hidden THEN 1 ELSE 0)    \* runner.go: len(r.runners), re-read by the collection loop
+Extra == nr + 1                                  \* the runner offered to Add after Run / Close
 GraceN == IF grace THEN 1 ELSE 0
 LateIds == (nc + 1)..(nc + MaxLate)
 E(name) == [ev |-> name, now |-> now]
@@ -59,7 +62,8 @@ Init ==
   /\ now = 0
   /\ running = FALSE /\ closing = FALSE /\ closeCh = FALSE /\ stopped = FALSE /\ closeFS = FALSE /\ lockRun = FALSE
   /\ pcan = FALSE /\ ctx = FALSE
-  /\ rpc = [i \in 1..nr |-> "idle"] /\ hpc = "none" /\ icnt = 0 /\ ierrs = <<>>
+  /\ mrunning = FALSE /\ rl = [i \in 1..nr |-> i] /\ apr = "idle"
+  /\ rpc = [i \in 1..(nr + 1) |-> "idle"] /\ hpc = "none" /\ icnt = 0 /\ ierrs = <<>>
   /\ opc = "idle" /\ runid = 0 /\ nearly = 0 /\ nloop = 0
   /\ regs = [j \in 1..nc |-> j]
   /\ cpc = [j \in 1..(nc + MaxLate) |-> "idle"] /\ cres = [j \in 1..(nc + MaxLate) |-> ""]
@@ -74,35 +78,48 @@ Init ==
                                                    ELSE [ev |-> "addcloser.ret", j |-> x \div 2, ok |-> TRUE, now |-> 0]])
 
 ----------------------------------------------------------------------------
-(* Run - runner.go:58-66 / closer.go:146-169 *)
+(* Run - runner.go:58-62 / closer.go:152-156: the running CAS.  The plain manager goes on to start its runners in  *)
+(* the same step; the closer manager first prepares (InnerStart below), and its inner manager's flag is still clear *)
+StartRunners ==
+  /\ mrunning' = TRUE
+  /\ rpc' = [i \in DOMAIN rpc |-> IF \E x \in DOMAIN rl : rl[x] = i THEN "spawned" ELSE rpc[i]]
+  /\ ctx' = pcan
 RunCall ==
   /\ nrun < 2
   /\ nrun' = nrun + 1
   /\ IF ~running
-       THEN /\ running' = TRUE /\ opc' = "inner" /\ runid' = nrun + 1
-            /\ rpc' = [i \in 1..nr |-> "spawned"]
-            /\ hpc' = IF Hidden THEN "run" ELSE "none"
-            /\ ctx' = pcan
+       THEN /\ running' = TRUE /\ runid' = nrun + 1
             /\ nearly' = Len(regs) + GraceN
-            /\ c' = Feed(c, <<E("runcall") @@ [id |-> nrun + 1]>>)
+            /\ c' = Feed(c, <<E("runcall") @@ [id |-> nrun + 1], E("runstarted")>>)
+            /\ IF kind = "rm" THEN opc' = "inner" /\ StartRunners /\ hpc' = hpc
+                              ELSE opc' = "spawn" /\ UNCHANGED <<mrunning, rpc, ctx, hpc>>
        ELSE /\ c' = Feed(c, <<E("runcall") @@ [id |-> nrun + 1],
                               E("runreturn") @@ [id |-> nrun + 1, rejected |-> TRUE, errs |-> <<>>]>>)
-            /\ UNCHANGED <<running, opc, runid, rpc, hpc, ctx, nearly>>
-  /\ UNCHANGED <<kind, nr, nc, grace, now, closing, closeCh, stopped, closeFS, lockRun, pcan, icnt, ierrs, nloop, regs,
+            /\ UNCHANGED <<running, opc, runid, rpc, hpc, ctx, nearly, mrunning>>
+  /\ UNCHANGED <<kind, nr, nc, grace, rl, apr, now, closing, closeCh, stopped, closeFS, lockRun, pcan, icnt, ierrs, nloop, regs,
                  cpc, cres, gpc, garm, ccnt, cerrs, retErr, apc, kpc>>
+
+(* closer.go:161-176: add the runner that waits on closeCh when there is at least one runner, then the spawned      *)
+(* goroutine wins the inner manager's CAS (runner.go:59) and starts the runners that are in the slice now            *)
+InnerStart ==
+  /\ kind = "rcm" /\ opc = "spawn"
+  /\ opc' = "inner" /\ StartRunners
+  /\ hpc' = IF Len(rl) > 0 THEN "run" ELSE "none"
+  /\ UNCHANGED <<kind, nr, nc, grace, rl, apr, now, running, closing, closeCh, stopped, closeFS, lockRun, pcan, icnt, ierrs,
+                 runid, nearly, nloop, regs, cpc, cres, gpc, garm, ccnt, cerrs, retErr, apc, kpc, nrun, c>>
 
 RunnerBegin(i) ==
   /\ rpc[i] = "spawned"
   /\ rpc' = [rpc EXCEPT ![i] = "run"]
   /\ c' = Feed(c, <<E("runnerstart") @@ [i |-> i]>>)
-  /\ UNCHANGED <<kind, nr, nc, grace, now, running, closing, closeCh, stopped, closeFS, lockRun, pcan, ctx, hpc, icnt, ierrs,
+  /\ UNCHANGED <<kind, nr, nc, grace, mrunning, rl, apr, now, running, closing, closeCh, stopped, closeFS, lockRun, pcan, ctx, hpc, icnt, ierrs,
                  opc, runid, nearly, nloop, regs, cpc, cres, gpc, garm, ccnt, cerrs, retErr, apc, kpc, nrun>>
 
 SeesCancel(i) ==
   /\ rpc[i] = "run" /\ ctx
   /\ rpc' = [rpc EXCEPT ![i] = "seen"]
   /\ c' = Feed(c, <<E("seescancel") @@ [i |-> i]>>)
-  /\ UNCHANGED <<kind, nr, nc, grace, now, running, closing, closeCh, stopped, closeFS, lockRun, pcan, ctx, hpc, icnt, ierrs,
+  /\ UNCHANGED <<kind, nr, nc, grace, mrunning, rl, apr, now, running, closing, closeCh, stopped, closeFS, lockRun, pcan, ctx, hpc, icnt, ierrs,
                  opc, runid, nearly, nloop, regs, cpc, cres, gpc, garm, ccnt, cerrs, retErr, apc, kpc, nrun>>
 
 (* the harness lets runner i return cl; runner.go:72-83: the result is filtered, sent, and the context cancelled *)
@@ -116,14 +133,14 @@ Release(i, cl) ==
   /\ ierrs' = IF Reported(cl) THEN Append(ierrs, RErrId(i, cl)) ELSE ierrs
   /\ ctx' = TRUE
   /\ c' = Feed(c, <<E("runnerreturn") @@ [i |-> i, class |-> cl, id |-> IF cl = "canceled" THEN "" ELSE RErrId(i, cl)]>>)
-  /\ UNCHANGED <<kind, nr, nc, grace, now, running, closing, closeCh, stopped, closeFS, lockRun, pcan, hpc,
+  /\ UNCHANGED <<kind, nr, nc, grace, mrunning, rl, apr, now, running, closing, closeCh, stopped, closeFS, lockRun, pcan, hpc,
                  opc, runid, nearly, nloop, regs, cpc, cres, gpc, garm, ccnt, cerrs, retErr, apc, kpc, nrun>>
 
 (* closer.go:157-163 *)
 HiddenRet ==
   /\ hpc = "run" /\ (ctx \/ closeCh)
   /\ hpc' = "done" /\ icnt' = icnt + 1 /\ ctx' = TRUE
-  /\ UNCHANGED <<kind, nr, nc, grace, now, running, closing, closeCh, stopped, closeFS, lockRun, pcan, rpc, ierrs,
+  /\ UNCHANGED <<kind, nr, nc, grace, mrunning, rl, apr, now, running, closing, closeCh, stopped, closeFS, lockRun, pcan, rpc, ierrs,
                  opc, runid, nearly, nloop, regs, cpc, cres, gpc, garm, ccnt, cerrs, retErr, apc, kpc, nrun, c>>
 
 (* runner.go:96 returned; plain manager: that is Run's result *)
@@ -131,7 +148,7 @@ InnerDoneRM ==
   /\ kind = "rm" /\ opc = "inner" /\ icnt = NInner
   /\ opc' = "done"
   /\ c' = Feed(c, <<E("runreturn") @@ [id |-> runid, rejected |-> FALSE, errs |-> ierrs]>>)
-  /\ UNCHANGED <<kind, nr, nc, grace, now, running, closing, closeCh, stopped, closeFS, lockRun, pcan, ctx, rpc, hpc, icnt, ierrs,
+  /\ UNCHANGED <<kind, nr, nc, grace, mrunning, rl, apr, now, running, closing, closeCh, stopped, closeFS, lockRun, pcan, ctx, rpc, hpc, icnt, ierrs,
                  runid, nearly, nloop, regs, cpc, cres, gpc, garm, ccnt, cerrs, retErr, apc, kpc, nrun>>
 
 InnerReady == IF Defect = "closersEarly" THEN icnt >= 1 \/ NInner = 0 ELSE icnt = NInner
@@ -143,14 +160,14 @@ StartClosing ==
   /\ nloop' = IF Defect = "errsEarly" THEN nearly ELSE Len(regs) + GraceN
   /\ cpc' = [j \in DOMAIN cpc |-> IF \E x \in DOMAIN regs : regs[x] = j THEN "spawned" ELSE cpc[j]]
   /\ gpc' = IF grace THEN "spawned" ELSE "none"
-  /\ UNCHANGED <<kind, nr, nc, grace, now, running, closeCh, stopped, closeFS, pcan, ctx, rpc, hpc, icnt, ierrs,
+  /\ UNCHANGED <<kind, nr, nc, grace, mrunning, rl, apr, now, running, closeCh, stopped, closeFS, pcan, ctx, rpc, hpc, icnt, ierrs,
                  runid, nearly, regs, cres, garm, ccnt, cerrs, retErr, apc, kpc, nrun, c>>
 
 CloserBegin(j) ==
   /\ cpc[j] = "spawned"
   /\ cpc' = [cpc EXCEPT ![j] = "run"]
   /\ c' = Feed(c, <<E("closerstart") @@ [j |-> j]>>)
-  /\ UNCHANGED <<kind, nr, nc, grace, now, running, closing, closeCh, stopped, closeFS, lockRun, pcan, ctx, rpc, hpc, icnt, ierrs,
+  /\ UNCHANGED <<kind, nr, nc, grace, mrunning, rl, apr, now, running, closing, closeCh, stopped, closeFS, lockRun, pcan, ctx, rpc, hpc, icnt, ierrs,
                  opc, runid, nearly, nloop, regs, cres, gpc, garm, ccnt, cerrs, retErr, apc, kpc, nrun>>
 
 CErrId(j, cl) == CASE cl = "err" -> KId[j] [] cl = "kcanceled" -> KCId[j] [] OTHER -> ""
@@ -159,50 +176,50 @@ CloserRelease(j, cl) ==
   /\ cpc' = [cpc EXCEPT ![j] = "sent"]
   /\ cres' = [cres EXCEPT ![j] = CErrId(j, cl)]
   /\ c' = Feed(c, <<E("closerreturn") @@ [j |-> j, class |-> cl, id |-> CErrId(j, cl)]>>)
-  /\ UNCHANGED <<kind, nr, nc, grace, now, running, closing, closeCh, stopped, closeFS, lockRun, pcan, ctx, rpc, hpc, icnt, ierrs,
+  /\ UNCHANGED <<kind, nr, nc, grace, mrunning, rl, apr, now, running, closing, closeCh, stopped, closeFS, lockRun, pcan, ctx, rpc, hpc, icnt, ierrs,
                  opc, runid, nearly, nloop, regs, gpc, garm, ccnt, cerrs, retErr, apc, kpc, nrun>>
 
 (* the grace-period closer - closer.go:83-94 *)
 GraceBegin ==
   /\ gpc = "spawned" /\ gpc' = "timing" /\ garm' = now
-  /\ UNCHANGED <<kind, nr, nc, grace, now, running, closing, closeCh, stopped, closeFS, lockRun, pcan, ctx, rpc, hpc, icnt, ierrs,
+  /\ UNCHANGED <<kind, nr, nc, grace, mrunning, rl, apr, now, running, closing, closeCh, stopped, closeFS, lockRun, pcan, ctx, rpc, hpc, icnt, ierrs,
                  opc, runid, nearly, nloop, regs, cpc, cres, ccnt, cerrs, retErr, apc, kpc, nrun, c>>
 GraceFire ==
   /\ gpc = "timing" /\ now >= garm + GraceTicks
   /\ gpc' = "sent"
   /\ c' = Feed(c, <<E("fatal")>>)
-  /\ UNCHANGED <<kind, nr, nc, grace, now, running, closing, closeCh, stopped, closeFS, lockRun, pcan, ctx, rpc, hpc, icnt, ierrs,
+  /\ UNCHANGED <<kind, nr, nc, grace, mrunning, rl, apr, now, running, closing, closeCh, stopped, closeFS, lockRun, pcan, ctx, rpc, hpc, icnt, ierrs,
                  opc, runid, nearly, nloop, regs, cpc, cres, garm, ccnt, cerrs, retErr, apc, kpc, nrun>>
 GraceRelease ==
   /\ gpc = "timing" /\ closeFS
   /\ gpc' = "sent"
-  /\ UNCHANGED <<kind, nr, nc, grace, now, running, closing, closeCh, stopped, closeFS, lockRun, pcan, ctx, rpc, hpc, icnt, ierrs,
+  /\ UNCHANGED <<kind, nr, nc, grace, mrunning, rl, apr, now, running, closing, closeCh, stopped, closeFS, lockRun, pcan, ctx, rpc, hpc, icnt, ierrs,
                  opc, runid, nearly, nloop, regs, cpc, cres, garm, ccnt, cerrs, retErr, apc, kpc, nrun, c>>
 
 (* the collection loop - closer.go:187-194 *)
 NeedClose == opc = "collect" /\ ~closeFS /\ nloop >= 1 /\ ccnt = nloop - 1 /\ (Defect = "releaseLate" => ccnt >= 1)
 CloseFSAct ==
   /\ NeedClose /\ closeFS' = TRUE
-  /\ UNCHANGED <<kind, nr, nc, grace, now, running, closing, closeCh, stopped, lockRun, pcan, ctx, rpc, hpc, icnt, ierrs,
+  /\ UNCHANGED <<kind, nr, nc, grace, mrunning, rl, apr, now, running, closing, closeCh, stopped, lockRun, pcan, ctx, rpc, hpc, icnt, ierrs,
                  opc, runid, nearly, nloop, regs, cpc, cres, gpc, garm, ccnt, cerrs, retErr, apc, kpc, nrun, c>>
 Recv(j) ==
   /\ opc = "collect" /\ ccnt < nloop /\ ~NeedClose /\ cpc[j] = "sent"
   /\ cpc' = [cpc EXCEPT ![j] = "done"]
   /\ ccnt' = ccnt + 1
   /\ cerrs' = IF cres[j] # "" THEN Append(cerrs, cres[j]) ELSE cerrs
-  /\ UNCHANGED <<kind, nr, nc, grace, now, running, closing, closeCh, stopped, closeFS, lockRun, pcan, ctx, rpc, hpc, icnt, ierrs,
+  /\ UNCHANGED <<kind, nr, nc, grace, mrunning, rl, apr, now, running, closing, closeCh, stopped, closeFS, lockRun, pcan, ctx, rpc, hpc, icnt, ierrs,
                  opc, runid, nearly, nloop, regs, cres, gpc, garm, retErr, apc, kpc, nrun, c>>
 RecvGrace ==
   /\ opc = "collect" /\ ccnt < nloop /\ ~NeedClose /\ gpc = "sent"
   /\ gpc' = "done" /\ ccnt' = ccnt + 1
-  /\ UNCHANGED <<kind, nr, nc, grace, now, running, closing, closeCh, stopped, closeFS, lockRun, pcan, ctx, rpc, hpc, icnt, ierrs,
+  /\ UNCHANGED <<kind, nr, nc, grace, mrunning, rl, apr, now, running, closing, closeCh, stopped, closeFS, lockRun, pcan, ctx, rpc, hpc, icnt, ierrs,
                  opc, runid, nearly, nloop, regs, cpc, cres, garm, cerrs, retErr, apc, kpc, nrun, c>>
 (* closer.go:196-198 and the deferred unlock / close(stopped) *)
 Finish ==
   /\ opc = "collect" /\ ccnt = nloop
   /\ opc' = "done" /\ retErr' = ierrs \o cerrs /\ lockRun' = FALSE /\ stopped' = TRUE
   /\ c' = Feed(c, <<E("runreturn") @@ [id |-> runid, rejected |-> FALSE, errs |-> ierrs \o cerrs]>>)
-  /\ UNCHANGED <<kind, nr, nc, grace, now, running, closing, closeCh, closeFS, pcan, ctx, rpc, hpc, icnt, ierrs,
+  /\ UNCHANGED <<kind, nr, nc, grace, mrunning, rl, apr, now, running, closing, closeCh, closeFS, pcan, ctx, rpc, hpc, icnt, ierrs,
                  runid, nearly, nloop, regs, cpc, cres, gpc, garm, ccnt, cerrs, apc, kpc, nrun>>
 
 (* AddCloser - closer.go:110-143 *)
@@ -218,7 +235,7 @@ AddCloserCall(j) ==
      ELSE
        /\ apc' = [apc EXCEPT ![j] = "passed"]
        /\ c' = Feed(c, <<E("addcloser.call") @@ [j |-> j]>>)
-  /\ UNCHANGED <<kind, nr, nc, grace, now, running, closing, closeCh, stopped, closeFS, lockRun, pcan, ctx, rpc, hpc, icnt, ierrs,
+  /\ UNCHANGED <<kind, nr, nc, grace, mrunning, rl, apr, now, running, closing, closeCh, stopped, closeFS, lockRun, pcan, ctx, rpc, hpc, icnt, ierrs,
                  opc, runid, nearly, nloop, regs, cpc, cres, gpc, garm, ccnt, cerrs, retErr, kpc, nrun>>
 AddCloserFinish(j) ==
   /\ apc[j] \in {"wait", "passed"} /\ ~lockRun
@@ -226,7 +243,7 @@ AddCloserFinish(j) ==
   /\ IF apc[j] = "wait" /\ closing
        THEN /\ c' = Feed(c, <<E("addcloser.ret") @@ [j |-> j, ok |-> FALSE]>>) /\ regs' = regs
        ELSE /\ c' = Feed(c, <<E("addcloser.ret") @@ [j |-> j, ok |-> TRUE]>>) /\ regs' = Append(regs, j)
-  /\ UNCHANGED <<kind, nr, nc, grace, now, running, closing, closeCh, stopped, closeFS, lockRun, pcan, ctx, rpc, hpc, icnt, ierrs,
+  /\ UNCHANGED <<kind, nr, nc, grace, mrunning, rl, apr, now, running, closing, closeCh, stopped, closeFS, lockRun, pcan, ctx, rpc, hpc, icnt, ierrs,
                  opc, runid, nearly, nloop, cpc, cres, gpc, garm, ccnt, cerrs, retErr, kpc, nrun>>
 
 (* Close - closer.go:202-212 *)
@@ -238,32 +255,42 @@ CloseCall(k) ==
   /\ running' = TRUE
   /\ stopped' = (stopped \/ ~running)
   /\ c' = Feed(c, <<E("closecall") @@ [id |-> k]>>)
-  /\ UNCHANGED <<kind, nr, nc, grace, now, closing, closeFS, lockRun, pcan, ctx, rpc, hpc, icnt, ierrs,
+  /\ UNCHANGED <<kind, nr, nc, grace, mrunning, rl, apr, now, closing, closeFS, lockRun, pcan, ctx, rpc, hpc, icnt, ierrs,
                  opc, runid, nearly, nloop, regs, cpc, cres, gpc, garm, ccnt, cerrs, retErr, apc, nrun>>
 CloseRet(k) ==
   /\ kpc[k] = "wait" /\ (stopped \/ Defect = "noWaitClose")
   /\ kpc' = [kpc EXCEPT ![k] = "done"]
   /\ c' = Feed(c, <<E("closereturn") @@ [id |-> k, errs |-> retErr]>>)
-  /\ UNCHANGED <<kind, nr, nc, grace, now, running, closing, closeCh, stopped, closeFS, lockRun, pcan, ctx, rpc, hpc, icnt, ierrs,
+  /\ UNCHANGED <<kind, nr, nc, grace, mrunning, rl, apr, now, running, closing, closeCh, stopped, closeFS, lockRun, pcan, ctx, rpc, hpc, icnt, ierrs,
                  opc, runid, nearly, nloop, regs, cpc, cres, gpc, garm, ccnt, cerrs, retErr, apc, nrun>>
 
-(* Add on a manager that was started (or closed): rejected - runner.go:46, closer.go:101 *)
-(* (leaves the model state unchanged: the step only shows the event to the monitor)   *)
-AddRunnerLate ==
-  /\ running
-  /\ c' = Feed(c, <<E("addrunner") @@ [i |-> nr + 1, ok |-> FALSE]>>)
-  /\ UNCHANGED <<kind, nr, nc, grace, now, running, closing, closeCh, stopped, closeFS, lockRun, pcan, ctx, rpc, hpc, icnt, ierrs,
+(* Add on a manager that was started (or closed) - closer.go:100-106 then runner.go:45-53: the closer manager's    *)
+(* own check, the inner manager's check, then the append under the lock.  A rejected call leaves the model state   *)
+(* unchanged (the step only shows the event to the monitor).                                                       *)
+AddRunnerCall ==
+  /\ running /\ apr = "idle"
+  /\ IF (kind = "rcm" /\ Defect # "addNoOuterCheck") \/ mrunning
+       THEN /\ c' = Feed(c, <<E("addrunner") @@ [i |-> Extra, ok |-> FALSE]>>) /\ apr' = apr
+       ELSE /\ apr' = "passed" /\ c' = c
+  /\ UNCHANGED <<kind, nr, nc, grace, mrunning, rl, now, running, closing, closeCh, stopped, closeFS, lockRun, pcan, ctx, rpc, hpc, icnt, ierrs,
+                 opc, runid, nearly, nloop, regs, cpc, cres, gpc, garm, ccnt, cerrs, retErr, apc, kpc, nrun>>
+AddRunnerFinish ==
+  /\ apr = "passed" /\ ~lockRun
+  /\ apr' = "done" /\ rl' = Append(rl, Extra)
+  /\ c' = Feed(c, <<E("addrunner") @@ [i |-> Extra, ok |-> TRUE]>>)
+  /\ UNCHANGED <<kind, nr, nc, grace, mrunning, now, running, closing, closeCh, stopped, closeFS, lockRun, pcan, ctx, rpc, hpc, icnt, ierrs,
                  opc, runid, nearly, nloop, regs, cpc, cres, gpc, garm, ccnt, cerrs, retErr, apc, kpc, nrun>>
 
 ParentCancel ==
-  /\ ~pcan /\ opc \in {"idle", "inner"} /\ nr > 0
+  /\ ~pcan /\ opc \in {"idle", "spawn", "inner"} /\ nr > 0
   /\ pcan' = TRUE /\ ctx' = (ctx \/ opc = "inner")
   /\ c' = Feed(c, <<E("parentcancel")>>)
-  /\ UNCHANGED <<kind, nr, nc, grace, now, running, closing, closeCh, stopped, closeFS, lockRun, rpc, hpc, icnt, ierrs,
+  /\ UNCHANGED <<kind, nr, nc, grace, mrunning, rl, apr, now, running, closing, closeCh, stopped, closeFS, lockRun, rpc, hpc, icnt, ierrs,
                  opc, runid, nearly, nloop, regs, cpc, cres, gpc, garm, ccnt, cerrs, retErr, apc, kpc, nrun>>
 
 Internal ==
-  \/ \E i \in 1..nr : RunnerBegin(i) \/ SeesCancel(i)
+  \/ \E i \in DOMAIN rpc : RunnerBegin(i) \/ SeesCancel(i)
+  \/ InnerStart \/ AddRunnerFinish
   \/ HiddenRet \/ InnerDoneRM \/ StartClosing
   \/ \E j \in DOMAIN cpc : CloserBegin(j) \/ Recv(j)
   \/ GraceBegin \/ GraceFire \/ GraceRelease \/ CloseFSAct \/ RecvGrace \/ Finish
@@ -272,11 +299,11 @@ Internal ==
 
 Env ==
   \/ RunCall
-  \/ \E i \in 1..nr, cl \in RClasses : Release(i, cl)
+  \/ \E i \in DOMAIN rpc, cl \in RClasses : Release(i, cl)
   \/ \E j \in DOMAIN cpc, cl \in CClasses : CloserRelease(j, cl)
   \/ \E j \in LateIds : AddCloserCall(j)
   \/ \E k \in 1..MaxClose : CloseCall(k)
-  \/ AddRunnerLate \/ ParentCancel
+  \/ AddRunnerCall \/ ParentCancel
 
 Quiescent == ~ENABLED Internal
 
@@ -284,13 +311,13 @@ Quiescent == ~ENABLED Internal
 Tick ==
   /\ Quiescent /\ gpc = "timing" /\ now < MaxT
   /\ now' = now + 1
-  /\ UNCHANGED <<kind, nr, nc, grace, running, closing, closeCh, stopped, closeFS, lockRun, pcan, ctx, rpc, hpc, icnt, ierrs,
+  /\ UNCHANGED <<kind, nr, nc, grace, mrunning, rl, apr, running, closing, closeCh, stopped, closeFS, lockRun, pcan, ctx, rpc, hpc, icnt, ierrs,
                  opc, runid, nearly, nloop, regs, cpc, cres, gpc, garm, ccnt, cerrs, retErr, apc, kpc, nrun, c>>
 
 Quiesce ==
   /\ Quiescent
   /\ c' = CNext(c, E("q"))
-  /\ UNCHANGED <<kind, nr, nc, grace, now, running, closing, closeCh, stopped, closeFS, lockRun, pcan, ctx, rpc, hpc, icnt, ierrs,
+  /\ UNCHANGED <<kind, nr, nc, grace, mrunning, rl, apr, now, running, closing, closeCh, stopped, closeFS, lockRun, pcan, ctx, rpc, hpc, icnt, ierrs,
                  opc, runid, nearly, nloop, regs, cpc, cres, gpc, garm, ccnt, cerrs, retErr, apc, kpc, nrun>>
 
 Next == Internal \/ Env \/ Tick \/ Quiesce
@@ -298,6 +325,6 @@ Spec == Init /\ [][Next]_vars
 
 NotBad == ~IsBad(c)
 (* the same laws stated directly on the model state *)
-ClosersAfterRunners == (\E j \in DOMAIN cpc : cpc[j] # "idle") => \A i \in 1..nr : rpc[i] = "done"
+ClosersAfterRunners == (\E j \in DOMAIN cpc : cpc[j] # "idle") => \A x \in DOMAIN rl : rpc[rl[x]] = "done"
 StoppedLast == stopped /\ opc = "done" => (\A j \in DOMAIN regs : cpc[regs[j]] = "done") /\ gpc \in {"none", "done"}
 =============================================================================
